@@ -208,6 +208,23 @@ CLAIMS = {
         "and are not in the grid (DESIGN.md Appendix B #13).",
         "DESIGN.md §3 C14",
     ),
+    "C08": (
+        "exploration",
+        "exhaustive program x deviation enumeration (ProgX): skeleton programs with every subset of numeric argument positions "
+        "replaced by variable expressions; template.build(values) vs direct construction compared on canonical snapshots",
+        "2458 cases: 7 skeleton programs (all waveform classes, delays, phase shifts, EOM with drift correction, DMM, index "
+        "targeting, XY; 6-12 numeric positions each) x every subset of positions turned into variable expressions (14 kinds: "
+        "scalar, array item, 2v, v+1, -v, v/2, v**2, abs, sqrt, sin, floor, ceil, round, nested; whole-array variables for "
+        "interpolation points), every kind at every single position and every kind pair on two positions; each template is built "
+        "for assignments A, B in the orders A,B,A and B,A,A, after a failed build, and compared with the same calls issued "
+        "directly on evaluated values; the template's full snapshot (incl. stored calls) must be unchanged by every build. "
+        "Mappable registers: 3 unsorted declared-id orders x every injective mapping of 1-3 ids onto 4 traps x every mapping "
+        "insertion order x every index: declared order, trap positions, index-based targeting and equality with direct "
+        "construction on the concrete register.",
+        "Assignments restricted to those the direct construction accepts; phase-reference entries of unmapped qubits are "
+        "ignored (unobservable).",
+        "DESIGN.md §3 C08",
+    ),
 }
 
 PENDING_REASON = "check not built yet in this round (design in DESIGN.md §3); nothing is claimed for it"
